@@ -368,6 +368,17 @@ def gen_c08(tier, seed):
                             if "cloneempty" in mk and 1 in live:
                                 c.add("push 1 w0"); c.add("push 1 l0.0.1" if (L > 0 and 0 in live) else "push 1 r0"); c.add("clone 1"); c.nvec += 1; live.append(2)
                             c.finish(live); cases.append(c)
+        # fixed-capacity sources at every length up to the capacity (small capacities that are not powers of two included):
+        # the clone has to fit whenever the source does, whatever room the clone asks for
+        for bk, tr in kinds:
+            cap = G.kind_cap(bk, layout[0])
+            if cap is None or cap < 2 or cap > 8 or "clone" not in tr: continue
+            for L in range(4, cap + 1):
+                c = G.Case("cl%d" % n, layout); n += 1
+                v0 = c.new(0, bk, tr); G.fill(c, v0, L, rng)
+                c.add("clone 0"); c.nvec += 1
+                c.add("info 1"); c.add("probe 1"); c.add("probe 0")
+                c.finish([0, 1]); cases.append(c)
     return cases
 
 PROPS["C08"] = {"gen": gen_c08, "proj": {}, "kinds": SEM | OWN | {"clone-accounting", "capacity"},
